@@ -49,6 +49,9 @@ def bounds(tier, seed):
 
 def cases(tier, seed):
     a = _alph(tier)
+    if tier == "quick":
+        # exercises the recorded 'marginal at |A| = 20' finding in the quick tier as well
+        yield {"family": "herm", "d": 256, "spec": "clustered", "scale": 20.0, "tol": 1e-8, "mk": 5, "seed": seed}
     for fam in FAMILIES:
         if fam == "sectors":
             # two atoms, one of them far detuned (what an SLM mask does): a low-energy sector weakly coupled to a high-energy one
@@ -204,7 +207,15 @@ def run_case(case):
                     if not err <= allowed:
                         return result(
                             False,
-                            sig=("inaccurate-converged|sectors|error-estimate-uses-norm-of-previous-vector" if case["family"] == "sectors" and res.iteration_count <= 2 else f"inaccurate-converged|{case['family']}|herm={herm}"),
+                            sig=(
+                                "inaccurate-converged|sectors|error-estimate-uses-norm-of-previous-vector"
+                                if case["family"] == "sectors" and res.iteration_count <= 2
+                                else (
+                                    "inaccurate-converged|marginal (10-15 tol) at |A| = 20, d = 256, clustered spectrum"
+                                    if case.get("scale", 0) >= 20 and case.get("d") == 256 and case.get("spec") == "clustered" and err <= 1.5 * allowed
+                                    else f"inaccurate-converged|{case['family']}|herm={herm}"
+                                )
+                            ),
                             msg=f"converged (happy={res.happy_breakdown}, it={res.iteration_count}) but |exp(A)v - result| = {err:.3e} > {allowed:.3e}; vector {vname}, {case}",
                             outcome="viol",
                         )
@@ -223,7 +234,8 @@ def run_case(case):
                     )
                 outcomes.append((vname, herm, "nonconv", res.iteration_count))
             # an eigenvector start / invariant subspace must break down happily once the subspace is exhausted
-            if vname.startswith(("eig", "sum")) and case["scale"] > 0 and not res.converged:
+            # (only demanded where rounding cannot hide the breakdown: |A| eps must stay well below the breakdown threshold = tolerance)
+            if vname.startswith(("eig", "sum")) and case["scale"] > 0 and not res.converged and tol >= 1e-8:
                 k = 1 if vname == "eig" else int(vname[3:])
                 if mk > k:
                     return result(False, sig="invariant-subspace-not-converged", msg=f"start vector in a {k}-dim invariant subspace, max_krylov_dim {mk}, but no convergence; {case}", outcome="viol")
